@@ -63,8 +63,7 @@ extern "C" void harness_c15_define_ctor() {
   int n = nondet_int();
   ASSUME(n >= 1 && n <= LMAX);
   char b[LMAX + 1];
-  for (int i = 0; i < LMAX; i++) b[i] = pick_def_char();
-  b[LMAX] = 0;
+  FILL_SYMBOLIC(b, LMAX, n, pick_def_char);
   ASSUME(b[0] != ' ');          // get_preprocessor_args() trims blanks
   ASSUME(b[n - 1] != ' ');
 #ifdef EXCLUDE_UNTERMINATED_PARAMS
@@ -75,7 +74,7 @@ extern "C" void harness_c15_define_ctor() {
   cppyyltype *loc = new cppyyltype;
   loc->first_line = loc->last_line = 1;
   loc->first_column = loc->last_column = 1;
-  std::string args(b, (size_t)n);
+  SYMBOLIC_STRING(args, b, LMAX, n);
   CPPManifest *m = new CPPManifest(*pp, args, *loc);
   ASSERT(m->_num_parameters <= (size_t)LMAX, "C15 a definition of n bytes has at most n parameters");
   ASSERT(m->_has_parameters || m->_num_parameters == 0, "C15 an object-like macro has no parameters");
@@ -85,17 +84,16 @@ extern "C" void harness_c15_define_ctor() {
 
 // -D form: predefine_macro() splits "name=value" at the first '='; both halves are arbitrary (also empty)
 extern "C" void harness_c15_dash_d_ctor() {
-  int n = nondet_int();
-  ASSUME(n >= 0 && n <= LMAX);
-  int k = nondet_int();
-  ASSUME(k >= 0 && k <= n);
-  char b[LMAX + 1];
-  for (int i = 0; i < LMAX; i++) b[i] = pick_def_char();
-  b[LMAX] = 0;
+  int k = nondet_int();      // length of the name part
+  int d = nondet_int();      // length of the value part
+  ASSUME(k >= 0 && d >= 0 && k + d <= LMAX);
+  char b1[LMAX + 1], b2[LMAX + 1];
+  FILL_SYMBOLIC(b1, LMAX, k, pick_def_char);
+  FILL_SYMBOLIC(b2, LMAX, d, pick_def_char);
   g_save_expansion_calls = 0;
   CPPPreprocessor *pp = make_pp();
-  std::string macro(b, (size_t)k);
-  std::string def(b + k, (size_t)(n - k));
+  SYMBOLIC_STRING(macro, b1, LMAX, k);
+  SYMBOLIC_STRING(def, b2, LMAX, d);
   CPPManifest *m = new CPPManifest(*pp, macro, def);
   ASSERT(m->_num_parameters <= (size_t)LMAX, "C15 a definition of n bytes has at most n parameters");
   ASSERT(m->_has_parameters || m->_num_parameters == 0, "C15 an object-like macro has no parameters");
